@@ -510,6 +510,103 @@ func runC13(c *Ctx) {
 				}
 			})
 		}
+		// ... nor waits for a goroutine that may take it: a chain function that starts a goroutine able to lock
+		// Manager.mu must not block on a channel that only that goroutine completes (transitive wait: Remove holds
+		// the lock waiting for finished, the chain waits for the goroutine, the goroutine waits for the lock)
+		locksMu := func(g *ssa.Function) bool {
+			for h := range syncReach(g) {
+				found := false
+				instrs(h, func(in ssa.Instruction) {
+					if call, ok := in.(ssa.CallInstruction); ok {
+						if calleeName(call.Common()) == "(*sync.Mutex).Lock" && len(call.Common().Args) > 0 && fieldOf(call.Common().Args[0]) == fMu {
+							found = true
+						}
+					}
+				})
+				if found {
+					return true
+				}
+			}
+			return false
+		}
+		// channel identity across a function and its closures: the local cell / make the operand comes from
+		chanRoot := func(v ssa.Value) ssa.Value {
+			for i := 0; i < 6; i++ {
+				switch x := v.(type) {
+				case *ssa.UnOp:
+					v = x.X
+					continue
+				case *ssa.FreeVar:
+					if b := bindingOf(x); b != nil {
+						v = b
+						continue
+					}
+				case *ssa.Alloc:
+					return x
+				}
+				break
+			}
+			return v
+		}
+		for f := range S {
+			top := f
+			for top.Parent() != nil {
+				top = top.Parent()
+			}
+			instrs(f, func(in ssa.Instruction) {
+				g, ok := in.(*ssa.Go)
+				if !ok {
+					return
+				}
+				t := staticCallee(&g.Call)
+				if t == nil || !locksMu(t) {
+					return
+				}
+				// channels the goroutine completes (close / send), incl. deferred
+				done := map[ssa.Value]bool{}
+				for _, h := range withAnon(t) {
+					instrs(h, func(gi ssa.Instruction) {
+						switch x := gi.(type) {
+						case ssa.CallInstruction:
+							if b, ok := x.Common().Value.(*ssa.Builtin); ok && b.Name() == "close" {
+								done[chanRoot(x.Common().Args[0])] = true
+							}
+						case *ssa.Send:
+							done[chanRoot(x.Chan)] = true
+						}
+					})
+				}
+				if len(done) == 0 {
+					return
+				}
+				// blocking receives on those channels in the starting function and its other closures
+				for _, h := range withAnon(top) {
+					if h == t {
+						continue
+					}
+					instrs(h, func(hi ssa.Instruction) {
+						var ch ssa.Value
+						switch x := hi.(type) {
+						case *ssa.UnOp:
+							if x.Op == token.ARROW {
+								ch = x.X
+							}
+						case *ssa.Select:
+							if x.Blocking {
+								for _, s := range x.States {
+									if s.Dir == types.RecvOnly && done[chanRoot(s.Chan)] {
+										ch = s.Chan
+									}
+								}
+							}
+						}
+						if ch != nil && done[chanRoot(ch)] {
+							c.Bad("C13.locks", fnName(h), "waits for a goroutine that may lock Manager.mu", P.Pos(hi.Pos()), "the monitor chain blocks on "+Expr(ch)+", completed only by go "+fnName(t)+" which can be waiting for Manager.mu that Remove holds")
+						}
+					})
+				}
+			})
+		}
 		// in the closing closure Reconnect (which locks Manager.mu) comes after close(finished): covered by C13.finish ordering
 		c.OK("C13.locks", fnName(rm), "no Manager.mu acquisition on the monitor chain before finished is closed", P.Pos(rm.Pos()), fmt.Sprintf("%d chain functions inspected", len(S)))
 	}
